@@ -156,6 +156,14 @@ impl Observer for IdModel {
             if !must.is_empty() {
                 self.closes_in_flight += 1;
             }
+            // a persistent session keeps its publish exchanges (and their identifiers) across the close
+            if pre.persistent {
+                for s in [&pre_app.out_q1, &pre_app.out_q2_rec, &pre_app.out_q2_rel, &pre_app.out_q2_comp] {
+                    if let Some(id) = s.iter().find(|id| released.contains(id)) {
+                        return Err(fail("C08.persistent_exchange_released_at_close", format!("{v}"), format!("notify_closed released identifier {id} although its exchange belongs to a persistent session and is still in flight")));
+                    }
+                }
+            }
             for id in must {
                 if u_before.contains(&id) && !released.contains(&id) {
                     if pre_app.out_q2_rel.contains(&id) {
@@ -337,7 +345,7 @@ pub fn run(ctx: &Ctx) -> Report {
          closes (persistent or not) and reconnects, u16 and u32 ids, against a set model of the in-use identifiers fed only by announced events (checked against the verif-hooks in-use set after every op); \
          plus one deterministic fill of all 65535 u16 ids. non-trivial = a refusal or a close happened while an exchange id was in flight",
     );
-    let n = ctx.tier.pick(150_000, 2_000_000);
+    let n = ctx.tier.pick(400_000, 2_000_000);
     let (st, v) = search(ctx, "c08.history", n, || history(profile(), true, no_hostile()), test);
     rep.absorb("histories", st, v, false);
     let mut st = Stats::default();
